@@ -34,6 +34,7 @@ package parse
 //@   ghostset @mapupdate:map[parse.retrievedListIndex]*parse.fileInfo claimed
 //@   ghostset @call:iface:github.com/anz-bank/golden-retriever/reader.Reader.ReadHashBranch read
 //@   assert @lookup:map[parse.retrievedListIndex]*parse.fileInfo [map-read-under-lock] ghost("locked")
+//@   ensures [lock-released-on-every-return] !ghost("locked")
 //@   assert @mapupdate:map[parse.retrievedListIndex]*parse.fileInfo [map-write-under-lock] ghost("locked")
 //@   assert @mapupdate:map[parse.retrievedListIndex]*parse.fileInfo [claims-only-an-unclaimed-file] !in(mapkey, maptarget) && maptarget == retrieved.l
 //@   assert @call:iface:github.com/anz-bank/golden-retriever/reader.Reader.ReadHashBranch [claim-before-read] ghost("claimed") && !ghost("locked")
@@ -52,8 +53,17 @@ package parse
 //@   errprop-nil (*Parser).collectSpecs
 //@   structure no-channel-ops
 
+// The import scan looks at every line of the file: an import line is collected wherever it stands, whatever the layout
+// of the lines around it (indented comments, whitespace-only lines) — the scan loop is left only at the end of input.
+//@ func extractImports
+//@   structure no-early-loop-exit
+
+// The imports of a file are what walking *its* import block gives, resolved against *its* directory: a successful
+// result is produced by a walk made in this call.
 //@ func parseImports
 //@   errprop-nil parse.parseString parse.walkTree
+//@   ghostset @call:parse.walkTree walked
+//@   ensures [imports-come-from-walking-this-block] result1 == nil ==> ghost("walked")
 
 //@ func importForeign
 //@   requires input != nil
